@@ -81,7 +81,7 @@ func (w *World) staticOutputs(out *OutputLog) {
 			}
 		}
 		if p := guarded(func() {
-			m, err := migrations.MigrateToLatest(def, nil)
+			m, err := migrations.MigrateToLatest(def, migrations.DefaultConfig)
 			out.add(fmt.Sprintf("migrate/flow%d", i), fmt.Sprintf("%v|%s", err, m))
 			// clone with a fixed dependency mapping under the seeded UUID source
 			mapping := map[uuids.UUID]uuids.UUID{}
